@@ -532,6 +532,41 @@ func cmdGen(args []string) error {
 	for i := 0; i < *nRandom; i++ {
 		emit("random", randomSource(r, dict), nil, "")
 	}
+	// scale family: well-formed programs whose SIZE grows in one dimension (call-graph paths, statements, locals,
+	// fields, constants, operands, else-if arms).  Every stage must stay prompt: work that grows with the number
+	// of call PATHS instead of the number of functions, or quadratically in a list length, trips the stage budget.
+	for _, n := range []int{16, 64, 200} {
+		for _, sc := range scalePrograms(n) {
+			emit("scale-"+sc.name, []byte(sc.src), nil, "")
+		}
+	}
+	// end-of-input cuts (exhaustive over a fixed lexeme set, no model needed): the source ends, WITHOUT a trailing
+	// newline, after every prefix of every lexeme of `enders`, alone and directly after every lexeme of `heads`.
+	// Every look-ahead of the tokenizer (suffixes of quoted literals, two-character squiggles, comments, numbers)
+	// meets the end of the input at every possible offset.
+	{
+		heads := []string{"", "'a'", "'ab'", "'ab'le", "\"s\"", "\"#bad\"", "0x1F", "0b10", "1_0", "x", "x.", "..", "~mod", "~sat", "<", ">", "=", "!", "/", "//", "{", "{{", "[", "(", "-", "+", "&", "|", "^", "*", "%", "~"}
+		enders := []string{"'a'", "'ab'be", "'ab'le", "'abcd'be", "''", "'\\n'", "\"str\"", "\"\\\"\"", "0x1F", "0b10", "0_", "1_0", "be", "le", "b", "l", "//c", "/*", "..=", "..", ".", "~mod+", "~mod<<=", "~sat-=", "<<=", ">>=", "<>", "<=", ">=", "==", "=?", "}}", "{{", "io_bind", "\x00", "\xff", "\xc3\xa9", "\r\n", "\t", "$", "`", "#", "@", "\\"}
+		pre := "pri const K : base.u32 = 5\n"
+		seen := map[string]bool{}
+		for _, h := range heads {
+			for _, e := range enders {
+				for k := 1; k <= len(e); k++ {
+					for _, sp := range []string{"", " "} {
+						src := pre + h + sp + e[:k]
+						if seen[src] {
+							continue
+						}
+						seen[src] = true
+						emit("eofcut", []byte(src), nil, "")
+						if h == "" && sp == "" {
+							emit("eofcut", []byte(e[:k]), nil, "") // the whole source is the cut lexeme
+						}
+					}
+				}
+			}
+		}
+	}
 	mut := func(c corpusFile) (string, []byte) {
 		switch r.Intn(4) {
 		case 0:
@@ -565,4 +600,79 @@ func cmdGen(args []string) error {
 	cb, _ := json.Marshal(map[string]interface{}{"sources": id, "by_origin": counts, "corpus_files": len(corpus), "dictionary": len(dict)})
 	fmt.Println(string(cb))
 	return nil
+}
+
+type scaleProg struct{ name, src string }
+
+// scalePrograms returns accepted (or cleanly rejected) programs of size n in one dimension each.
+func scalePrograms(n int) []scaleProg {
+	var out []scaleProg
+	hdr := "pub struct foo?(m : base.u32, a : array[8] base.u8)\n\n"
+	var b strings.Builder
+	// a chain of n methods, each calling the next from TWO call sites (2^n call paths, n functions)
+	b.WriteString(hdr)
+	for i := 0; i < n; i++ {
+		fmt.Fprintf(&b, "pri func foo.c%d!(x: base.u32) base.u32 {\n    var y : base.u32\n", i)
+		if i+1 < n {
+			fmt.Fprintf(&b, "    y = this.c%d!(x: args.x & 1)\n    if y > 2 {\n        y = this.c%d!(x: 0)\n    }\n", i+1, i+1)
+		}
+		b.WriteString("    return y & 0xFF\n}\n\n")
+	}
+	b.WriteString("pub func foo.f!(x: base.u32) base.u32 {\n    var y : base.u32\n    y = this.c0!(x: args.x)\n    return y\n}\n")
+	out = append(out, scaleProg{fmt.Sprintf("callpaths-%d", n), b.String()})
+	// the same with coroutines (suspension/liveness analysis walks the call sites too)
+	b.Reset()
+	b.WriteString(hdr)
+	for i := 0; i < n; i++ {
+		fmt.Fprintf(&b, "pri func foo.d%d?(src: base.io_reader) {\n    var c : base.u8\n    c = args.src.read_u8?()\n", i)
+		if i+1 < n {
+			fmt.Fprintf(&b, "    this.d%d?(src: args.src)\n    if c > 2 {\n        this.d%d?(src: args.src)\n    }\n", i+1, i+1)
+		}
+		b.WriteString("}\n\n")
+	}
+	b.WriteString("pub func foo.f?(src: base.io_reader) {\n    this.d0?(src: args.src)\n}\n")
+	out = append(out, scaleProg{fmt.Sprintf("coropaths-%d", n), b.String()})
+	// n sequential ifs over n locals (facts accumulate)
+	b.Reset()
+	b.WriteString(hdr + "pub func foo.f!(x: base.u32) base.u32 {\n")
+	for i := 0; i < n; i++ {
+		fmt.Fprintf(&b, "    var v%d : base.u32\n", i)
+	}
+	for i := 0; i < n; i++ {
+		fmt.Fprintf(&b, "    if args.x > %d {\n        v%d = args.x & %d\n    }\n", i, i, i|1)
+	}
+	b.WriteString("    return v0 & 0xFF\n}\n")
+	out = append(out, scaleProg{fmt.Sprintf("ifs-%d", n), b.String()})
+	// an else-if chain of n arms
+	b.Reset()
+	b.WriteString(hdr + "pub func foo.f!(x: base.u32) base.u32 {\n    var y : base.u32\n    if args.x == 0 {\n        y = 1\n")
+	for i := 1; i < n; i++ {
+		fmt.Fprintf(&b, "    } else if args.x == %d {\n        y = %d\n", i, i&7)
+	}
+	b.WriteString("    }\n    return y\n}\n")
+	out = append(out, scaleProg{fmt.Sprintf("elseif-%d", n), b.String()})
+	// n fields and n constants, an associative chain of n operands
+	b.Reset()
+	for i := 0; i < n; i++ {
+		fmt.Fprintf(&b, "pri const K%d : base.u32 = %d\n", i, i)
+	}
+	b.WriteString("\npub struct foo?(\n")
+	for i := 0; i < n; i++ {
+		fmt.Fprintf(&b, "        f%d : base.u32[..= %d],\n", i, i+1)
+	}
+	b.WriteString(")\n\npub func foo.f!(x: base.u32) base.u32 {\n    return (args.x & 1)")
+	for i := 0; i < n && i < 250; i++ {
+		fmt.Fprintf(&b, " |\n            (K%d & 1)", i)
+	}
+	b.WriteString("\n}\n")
+	out = append(out, scaleProg{fmt.Sprintf("decls-%d", n), b.String()})
+	// n nested (non-labelled) loops are a nesting, covered by the nest damage; n SEQUENTIAL labelled loops sharing labels
+	b.Reset()
+	b.WriteString(hdr + "pub func foo.f!(x: base.u32) base.u32 {\n    var i : base.u32\n")
+	for i := 0; i < n; i++ {
+		fmt.Fprintf(&b, "    while.l%d i < 4 {\n        while i < 3 {\n            i = (i & 3) + 1\n            break.l%d\n        }\n        i = (i & 3) + 1\n    }.l%d\n", i%3, i%3, i%3)
+	}
+	b.WriteString("    return i\n}\n")
+	out = append(out, scaleProg{fmt.Sprintf("loops-%d", n), b.String()})
+	return out
 }
